@@ -19,6 +19,7 @@ RULE = ("for each corpus script (all verbs / transfer kinds), each ending {peer 
 RULE += ("  " + 'Also: reply flood whose peer never reads; slow back end with a latency grid; slow reply writer; Server.close() long after the scripts ended; unlimited data-connection wait; 2 s back-end close() with an audit of tasks and open files at the very moment close() returns.')
 RULE += ("  " + 'Also (round 7): blocks waiting behind read / per-connection limits when the session ends; the simulator no longer closes a listener whose create_server() was cancelled (CPython 3.12.1 does not).')
 RULE += ("  " + 'Also (round 8): the second life of a Server object (start, serve, close, start) under cuts and server-close; a back end whose constructor raises for the first sessions.')
+RULE += ("  " + 'Also (round 9): REST followed by APPE/STOR of missing and existing files, the session ended in every way afterwards (open-handle ledger).')
 ASSUMPTIONS = [
     "in-memory network model (harness/simnet.py); a transport closed only by StreamWriter.__del__ counts as leaked",
     "quiescence bound: 5 virtual seconds after the cut without further input",
@@ -327,6 +328,17 @@ def gen_cases(tier, seed):
             for action in ("rst", "server-close"):
                 cases.append({"kind": "enum", "action": action, "stride": 3 if tier == "quick" else 1, "phase": seed % 3,
                               "plan": {"scripts": [name], "seed": seed, "server_kwargs": kw}})
+    # restart offset + APPE / STOR on files that do not exist (and do), then the session ends in every way
+    rest_scripts = {
+        "appe_rest_missing": [["connect"], ["login"], ["epsv"], ["cmd", "REST 5"], ["xfer", "APPE", "/missing-appe.bin", 3], ["cmd", "PWD"], ["quit"]],
+        "appe_rest_existing": [["connect"], ["login"], ["epsv"], ["cmd", "REST 5"], ["xfer", "APPE", "/f.bin", 3], ["epsv"], ["cmd", "REST 2"],
+                               ["xfer", "STOR", "/dir/g.txt", 4], ["quit"]],
+    }
+    for name, sc in rest_scripts.items():
+        for action in ("rst", "server-close", "fin"):
+            for backend in ("memory", "pathio"):
+                cases.append({"kind": "enum", "action": action, "stride": 2 if tier == "quick" else 1, "phase": seed % 2,
+                              "plan": {"scripts": [name], "inline": [sc], "seed": seed, "backend": backend}})
     # a back end whose constructor raises for the first session(s): that session ends by this error, nothing of it stays
     for name in ("login_quit", "retr_pasv"):
         for n_fail in (1, 2):
